@@ -115,7 +115,13 @@ var termAtoms = []func() *ast.SExpr{
 	func() *ast.SExpr { return ast.NewFloat(1) },
 	func() *ast.SExpr { return ast.NewString("1") },
 	func() *ast.SExpr { return ast.NewSymbol("1") },
+	// floats on which `==`, `<` and a three-way comparison disagree: one NaN atom (always the same pointer: a NaN is never set
+	// against a second NaN value, only against itself and against other atoms), and an infinity
+	func() *ast.SExpr { return nanAtom },
+	func() *ast.SExpr { return ast.NewFloat(math.Inf(1)) },
 }
+
+var nanAtom = ast.NewFloat(math.NaN())
 
 // genTerm generates a term over variables 0..nv-1.
 func genTerm(r *rand.Rand, depth, nv int) *ast.SExpr {
